@@ -78,10 +78,8 @@ def run(ctx):
     ctx.cov["exhaustive"] = True
     cfgs = ["Gen_Regions.quick.cfg"] if ctx.tier == "quick" else ["Gen_Regions.quick.cfg", "Gen_Regions.thorough.cfg"]
     for cfg in cfgs:
-        r = tlc_must_pass(TLA, os.path.join(SPEC, cfg), "gen_regions", workers=8, timeout=1800)
+        r, inits, edges = gen_run(TLA, os.path.join(SPEC, cfg), "gen_regions", workers=8, timeout=1800)
         ctx.add_mc(r, cfg)
-        inits = parse_tagged(r.out_path, "INIT")
-        edges = parse_tagged(r.out_path, "EDGE")
         tests = edges_to_tests(inits, edges, None if ctx.tier == "thorough" else 40000, ctx.seed)
         prog = []
         for t in tests:
